@@ -1090,45 +1090,62 @@ variable (E : Env S) (cp : S → Nat) (pc : Nat → Bytes) (coldef : Nat → Nat
   (parse : Connection S → Bytes → Option (ComStmtExecute S)) (app : S → Option (ResultSet S))
   (ur : S → Bool) (fls : ComFieldList S → S) (fcd : Nat → S → Bytes → Bytes)
   (other : Nat → Connection S → Bytes → Except (Connection S) (Connection S)) (err : Connection S → Bytes)
+  (af : Nat → Connection S → Bytes → Option (Connection S))
+
+/-- the `except AuthenticationFailed: return` arm: the untranslated handler of the packet's command byte raises it, leaving `s` -/
+def authEnded (c : Connection S) (data : Bytes) : Option (Connection S) :=
+  match data with
+  | [] => none
+  | command :: rest => if untranslated.contains command.toNat then af command.toNat { c with _executing := true } rest else none
 
 /-- **What one iteration adds to the wire, for every packet**: whatever the dispatched handler wrote; then, *iff* it raised (a
     malformed packet, an unknown statement, a failing application or row source, an unsupported command byte, an empty
     packet), exactly one ERR packet written with a drain; then the sequence reset — and nothing else.  The executing flag is
-    cleared whatever happened; the loop ends only on COM_QUIT. -/
+    cleared whatever happened; the loop ends only on COM_QUIT or when an untranslated handler (COM_CHANGE_USER) raises
+    `AuthenticationFailed` — then nothing but the sequence reset is added to what the handler left. -/
 theorem command_step_spec (c : Connection S) (data : Bytes) :
     let c1 : Connection S := { c with _executing := true }
+    match authEnded af c data with
+    | some s => command_step E cp pc coldef parse app ur fls fcd other err af c data = ({ s with _executing := false, out := s.out ++ [Ev.reset_seq] }, false)
+    | none =>
     match data with
     | [] =>
-      command_step E cp pc coldef parse app ur fls fcd other err c data
+      command_step E cp pc coldef parse app ur fls fcd other err af c data
         = ({ c with _executing := false, out := c.out ++ [Ev.write (err { c with _executing := false }) true, Ev.reset_seq] }, true)
     | command :: rest =>
       match dispatch E cp pc coldef parse app ur fls fcd other c1 command.toNat rest with
       | .ok (some s) =>
-        command_step E cp pc coldef parse app ur fls fcd other err c data = ({ s with _executing := false, out := s.out ++ [Ev.reset_seq] }, true)
+        command_step E cp pc coldef parse app ur fls fcd other err af c data = ({ s with _executing := false, out := s.out ++ [Ev.reset_seq] }, true)
       | .ok none =>
-        command_step E cp pc coldef parse app ur fls fcd other err c data = ({ c with _executing := false, out := c.out ++ [Ev.reset_seq] }, false)
+        command_step E cp pc coldef parse app ur fls fcd other err af c data = ({ c with _executing := false, out := c.out ++ [Ev.reset_seq] }, false)
       | .error s =>
-        command_step E cp pc coldef parse app ur fls fcd other err c data
+        command_step E cp pc coldef parse app ur fls fcd other err af c data
           = ({ s with _executing := false, out := s.out ++ [Ev.write (err { s with _executing := false }) true, Ev.reset_seq] }, true) := by
   intro c1
   cases data with
   | nil =>
-    dsimp only
+    simp only [authEnded]
     simp only [command_step, List.append_assoc, List.cons_append, List.nil_append]
   | cons command rest =>
-    dsimp only
-    cases h : dispatch E cp pc coldef parse app ur fls fcd other c1 command.toNat rest with
-    | error s =>
-      have h' : dispatch E cp pc coldef parse app ur fls fcd other { c with _executing := true } command.toNat rest = .error s := h
-      simp only [command_step, h', List.append_assoc, List.cons_append, List.nil_append]
-    | ok o =>
-      cases o with
-      | none =>
-        have h' : dispatch E cp pc coldef parse app ur fls fcd other { c with _executing := true } command.toNat rest = .ok none := h
-        simp only [command_step, h']
-      | some s =>
-        have h' : dispatch E cp pc coldef parse app ur fls fcd other { c with _executing := true } command.toNat rest = .ok (some s) := h
-        simp only [command_step, h']
+    cases ha : authEnded af c (command :: rest) with
+    | some s =>
+      have ha' : (if untranslated.contains command.toNat then af command.toNat { c with _executing := true } rest else none) = some s := ha
+      simp only [command_step, ha']
+    | none =>
+      have ha' : (if untranslated.contains command.toNat then af command.toNat { c with _executing := true } rest else none) = none := ha
+      dsimp only
+      cases h : dispatch E cp pc coldef parse app ur fls fcd other c1 command.toNat rest with
+      | error s =>
+        have h' : dispatch E cp pc coldef parse app ur fls fcd other { c with _executing := true } command.toNat rest = .error s := h
+        simp only [command_step, ha', h', List.append_assoc, List.cons_append, List.nil_append]
+      | ok o =>
+        cases o with
+        | none =>
+          have h' : dispatch E cp pc coldef parse app ur fls fcd other { c with _executing := true } command.toNat rest = .ok none := h
+          simp only [command_step, ha', h']
+        | some s =>
+          have h' : dispatch E cp pc coldef parse app ur fls fcd other { c with _executing := true } command.toNat rest = .ok (some s) := h
+          simp only [command_step, ha', h']
 
 theorem map_some_ne_none {ε α : Type} (x : Except ε α) : x.map some ≠ .ok none := by
   cases x <;> simp [Except.map]
@@ -1203,11 +1220,11 @@ theorem query_command_response (c : Connection S) (payload : Bytes) (q : ComQuer
     ∃ (w f l w2 fl : Nat),
       let pre := if deprecate_eof c then [] else [Ev.write (eof c w f) false]
       let sent := c.out ++ queryMeta coldef c rs ++ pre ++ rs.rows.rows.map (fun p => Ev.write p false)
-      (command_step E cp pc coldef parse app ur fls fcd other err c (3 :: payload)).2 = true ∧
-      ∃ e : Bytes, (command_step E cp pc coldef parse app ur fls fcd other err c (3 :: payload)).1.out
+      (command_step E cp pc coldef parse app ur fls fcd other err af c (3 :: payload)).2 = true ∧
+      ∃ e : Bytes, (command_step E cp pc coldef parse app ur fls fcd other err af c (3 :: payload)).1.out
         = if rs.rows.boom then sent ++ [Ev.write e true, Ev.reset_seq]
           else sent ++ [Ev.write (ok_or_eof c rs.rows.rows.length l w2 fl) false, Ev.drain, Ev.reset_seq] := by
-  have hs := command_step_spec E cp pc coldef parse app ur fls fcd other err c (3 :: payload)
+  have hs := command_step_spec E cp pc coldef parse app ur fls fcd other err af c (3 :: payload)
   have hq := handle_query_spec E coldef app ({ c with _executing := true } : Connection S) payload
   have hp' : Mimic.Extracted.ParsersCode.parse_com_query E ({ c with _executing := true } : Connection S).capabilities
       ({ c with _executing := true } : Connection S).client_charset payload = some q := hp
